@@ -48,10 +48,11 @@ def gen_content(rng, max_images=8, unique=True):
         seen.add(key)
         K["imgs"].append(img)
     variants = subset(rng, VARIANTS, 1, 3)
+    cell_arches = pools.ARCHES if rng.random() < 0.8 else pools.ARCHES + ["noarch", "ia64", "riscv64", "loongarch64", "armv7hl", "amd64", "arm64"]
     for i, img in enumerate(K["imgs"]):
         ncells = rng.choice([1, 1, 1, 2, 3])
         for _ in range(ncells):
-            K["cells"].append((pick(rng, variants), pick(rng, pools.ARCHES), i))
+            K["cells"].append((pick(rng, variants), pick(rng, cell_arches), i))
     K["cells"] = sorted(set(K["cells"]))
     # distinct images may legitimately share a PATH as long as they never meet in one cell (the same file
     # described under two variants with, say, another subvariant)
